@@ -146,12 +146,21 @@ func c14Bounds(c *Ctx, S map[*ssa.Function]bool) {
 	}
 	// SSA instructions by position
 	instrAt := map[token.Pos][]ssa.Instruction{}
+	// by file:line as well: code inlined by the normaliser keeps the line of the helper it came from (through /*line*/
+	// directives) but not the column, because the helper's locals were renamed
+	instrOnLine := map[string][]ssa.Instruction{}
 	for _, fn := range moduleFuncs(c.P) {
 		for _, b := range fn.Blocks {
 			for _, in := range b.Instrs {
 				switch in.(type) {
 				case *ssa.IndexAddr, *ssa.Index, *ssa.Slice, *ssa.Lookup:
 					instrAt[in.Pos()] = append(instrAt[in.Pos()], in)
+					if in.Pos().IsValid() {
+						pos := c.P.Fset.Position(in.Pos())
+						rel, _ := filepath.Rel(c.P.Repo, pos.Filename)
+						k := fmt.Sprintf("%s:%d", rel, pos.Line)
+						instrOnLine[k] = append(instrOnLine[k], in)
+					}
 				}
 			}
 		}
@@ -183,6 +192,16 @@ func c14Bounds(c *Ctx, S map[*ssa.Function]bool) {
 			lb = x.Lbrack
 		}
 		ins := instrAt[lb]
+		if len(ins) == 0 {
+			// the expression sits in a helper whose calls were inlined: take the inlined copies on the same line
+			for _, in := range instrOnLine[fmt.Sprintf("%s:%d", o.file, o.line)] {
+				_, isSliceExpr := nd.expr.(*ast.SliceExpr)
+				_, isSliceIn := in.(*ssa.Slice)
+				if isSliceExpr == isSliceIn {
+					ins = append(ins, in)
+				}
+			}
+		}
 		if len(ins) == 0 {
 			R.Unknown("C14.R1", "expr:"+exprKey(c, nd.expr), "unproven bounds check at "+key, key, "no SSA instruction found for this expression")
 			continue
